@@ -541,7 +541,9 @@ def facet_deck(rnd):
     e1 = ('and', ('s', rnd.choice([1, -1]), k1), ('s', -2))
     if rnd.random() < 0.5:
         e1 = ('and', ('s', 1, k1), ('s', -1, k2), ('s', -2)) if k1 != k2 else e1
-    placement = rnd.choice(['trcl', 'trcl', 'fill'])
+    placement = rnd.choice(['trcl', 'trcl', 'fill', 'both'])
+    if placement == 'both' and rnd.random() < 0.5:
+        e1 = ('and', ('s', -1), ('s', -2))          # the whole body, moved twice
     if placement == 'trcl':
         c1 = dk.Cell(1, e1, imp=1, trcl=gen.rand_tr(rnd, 't', pre, budget=bud, rot=(kind != 'rhp')))
         d.cells.append(c1)
@@ -551,7 +553,11 @@ def facet_deck(rnd):
     else:
         d.surfs.append(dk.Surf(3, 'so', [Fraction(30)]))
         d.cells.append(dk.Cell(1, ('s', -3), imp=1, fill=1, filltr=gen.rand_tr(rnd, 'f', pre, budget=bud, rot=(kind != 'rhp'))))
-        d.cells.append(dk.Cell(2, e1, imp=1, u=1, mat=1, rho='-2.7'))
+        c2 = dk.Cell(2, e1, imp=1, u=1, mat=1, rho='-2.7')
+        if placement == 'both':
+            # the cell of the universe has a TRCL of its own: its surfaces are transformed a second time by the FILL
+            c2.trcl = gen.rand_tr(rnd, 't', pre, budget=bud, rot=False)
+        d.cells.append(c2)
         d.cells.append(dk.Cell(3, ('cell', 2), imp=1, u=1))
         d.cells.append(dk.Cell(4, ('s', 3), imp=0))
         d.mats = {1: [('13027', '1.0')]}
